@@ -17,7 +17,7 @@ interleavings of these steps.
                             pc `top`  → h := Height()                     (l.100)
                             pc `haveH h` → lock; b := queue[pos(h+1)]; clean-up loop; unlock (l.101-113)
                             pc `holding b pos` → chain.AddItem(b)          (l.119)
-                            pc `added b pos`   → lock; len--; clear slot if still b; unlock (l.132-137)
+                            pc `added b pos`   → lock; if slot still b: clear it, len--; unlock (l.130-136)
   chain                     a height; `AddItem b` succeeds iff `b.ok ∧ b.idx = height+1`
                             (Blockchain.AddBlock, blockchain.go:1830-1836); `adv` = a block added by
                             another writer of the same chain (another queue, RPC submitblock, …).
@@ -137,15 +137,16 @@ def wake (s : State) : State :=
 /-- queue.go:100 `h := bq.chain.Height()` (outside the lock). -/
 def readH (s : State) : State := { s with pc := .haveH s.height }
 
-/-- queue.go:101-116: `pos := pos(h+1)`; lock; `b := queue[pos]`; clean-up loop; unlock;
-`lastHeight = h`; `if b == nil break`. -/
+/-- queue.go:99-120: `pos := pos(h+1)`; lock; `b := queue[pos]`; clean-up loop; unlock; `lastHeight = h`;
+`if b == nil break`; `if b.GetIndex() > h+1 continue` (the chain moved on since `h` was read and the slot holds
+an element of the new window: it is not offered, the height is read again). -/
 def lockSection (s : State) (h : Nat) : State :=
   let pos := posOf s.cap (h + 1)
   let r := cleanup s.cap (h - s.lastHeight) s.lastHeight s.ring s.len
   { s with ring := r.1, len := r.2, lastHeight := h,
            pc := match s.ring pos with
                  | none => .wait
-                 | some b => .holding b pos }
+                 | some b => if b.idx > h + 1 then .top else .holding b pos }
 
 /-- queue.go:119 `err := bq.chain.AddItem(b)` (the error is only logged). -/
 def addItem (s : State) (b : Elem) (pos : Nat) : State :=
@@ -153,9 +154,10 @@ def addItem (s : State) (b : Elem) (pos : Nat) : State :=
            log := s.log ++ [.add b (accepts s.height b)],
            pc := .added b pos }
 
-/-- queue.go:132-137: lock; `len--`; `if queue[pos] == b { queue[pos] = nil }`; unlock. -/
+/-- queue.go:130-136: lock; `if queue[pos] == b { queue[pos] = nil; len-- }`; unlock (6d1ab5f: `len` is counted
+down only when the slot still holds the applied element; a replacement took over its count). -/
 def finish (s : State) (b : Elem) (pos : Nat) : State :=
-  { s with len := s.len - 1,
+  { s with len := if s.ring pos = some b then s.len - 1 else s.len,
            ring := if s.ring pos = some b then setSlot s.ring pos none else s.ring,
            pc := .top }
 
